@@ -33,6 +33,9 @@ type LogDS struct {
 	// durable writes" do not cover these, the ones about "every error pattern" do): the next FailPut single Puts, the
 	// next FailDelete single Deletes, the next FailCommit batch commits return ErrInjected and write NOTHING.
 	FailPut, FailDelete, FailCommit int
+	// Transient READ faults: after the next FailGetSkip reads (Get / Has / GetSize; they succeed and are counted),
+	// the next FailGet reads return ErrInjected and read nothing. Both zero (the default) = no read faults.
+	FailGet, FailGetSkip int
 }
 
 // ErrInjected is what an injected datastore fault returns.
@@ -46,6 +49,21 @@ func (s *LogDS) fail(c *int) bool {
 		return true
 	}
 	return false
+}
+
+// failRead: is this read (Get / Has / GetSize) one of the injected read faults?
+func (s *LogDS) failRead() bool {
+	s.mu.Lock()
+	defer s.mu.Unlock()
+	if s.FailGet <= 0 {
+		return false
+	}
+	if s.FailGetSkip > 0 {
+		s.FailGetSkip--
+		return false
+	}
+	s.FailGet--
+	return true
 }
 
 func NewLogDS(init map[string][]byte) *LogDS {
@@ -101,6 +119,9 @@ func (s *LogDS) ImageAt(n int) map[string][]byte {
 func (s *LogDS) NumWrites() int { s.mu.Lock(); defer s.mu.Unlock(); return len(s.Log) }
 
 func (s *LogDS) Get(_ context.Context, k ds.Key) ([]byte, error) {
+	if s.failRead() {
+		return nil, ErrInjected
+	}
 	s.mu.Lock()
 	defer s.mu.Unlock()
 	v, ok := s.m[k.String()]
@@ -110,6 +131,9 @@ func (s *LogDS) Get(_ context.Context, k ds.Key) ([]byte, error) {
 	return append([]byte(nil), v...), nil
 }
 func (s *LogDS) Has(_ context.Context, k ds.Key) (bool, error) {
+	if s.failRead() {
+		return false, ErrInjected
+	}
 	s.mu.Lock()
 	defer s.mu.Unlock()
 	_, ok := s.m[k.String()]
